@@ -43,7 +43,7 @@ def dump(fn, pf=None, body=None):
         print(' bb%d:' % i)
         if pf:
             for fs in pf.at_entry(i):
-                print('      {' + '; '.join(sorted(showfact(f) for f in fs)) + '}')
+                print('      {' + '; '.join(sorted(showfact(f) for f in fs if not str(f[0]).startswith('~'))) + '}')
         for s in bb['s']:
             if 'p' in s: print('    %s = %s   // L%d%s' % (P(s['p']), R(s['rv']), s['ln'], ' exp' if s['exp'] else ''))
         t = bb['t']; k = t['k']
